@@ -12,6 +12,7 @@ import (
 	"net/http/httptest"
 	"os"
 	"path/filepath"
+	"regexp"
 	"sort"
 	"strings"
 	"time"
@@ -575,7 +576,22 @@ func (w *World) Render(full bool) string {
 	for _, l := range ls {
 		fmt.Fprintf(&sb, "%6d %s\n", l.step, normPath(l.s, ids))
 	}
-	return sb.String()
+	return NormUUIDs(sb.String())
+}
+
+var uuidRe = regexp.MustCompile(`[0-9a-f]{8}-[0-9a-f]{4}-[0-9a-f]{4}-[0-9a-f]{4}-[0-9a-f]{12}`)
+
+// NormUUIDs renames every UUID in s to U1, U2, ... in order of first appearance.
+func NormUUIDs(s string) string {
+	m := map[string]string{}
+	return uuidRe.ReplaceAllStringFunc(s, func(u string) string {
+		if v, ok := m[u]; ok {
+			return v
+		}
+		v := fmt.Sprintf("U%d", len(m)+1)
+		m[u] = v
+		return v
+	})
 }
 
 func normPath(p string, ids map[string]string) string {
